@@ -335,8 +335,8 @@ macro_rules! chunks_mut {
                 let (c, r) = GenericArray::<$T, $N>::chunks_from_slice_mut(&mut back[..l]);
                 kani::assert(c.len() == l / $n, "C10.chunks_mut: floor(L/N) whole chunks");
                 kani::assert(r.len() == l % $n, "C10.chunks_mut: remainder has L mod N elements");
-                kani::assert(zs || (addr(c.as_ptr()) == base), "C10.chunks_mut: chunks start at the source's address");
-                kani::assert(zs || (addr(r.as_ptr()) == base + (l / $n) * $n * sz), "C10.chunks_mut: remainder is adjacent to the chunks and ends at the source's end");
+                kani::assert(zs || c.len() == 0 || (addr(c.as_ptr()) == base), "C10.chunks_mut: chunks (if any) start at the source's address");
+                kani::assert(zs || r.len() == 0 || (addr(r.as_ptr()) == base + (l / $n) * $n * sz), "C10.chunks_mut: remainder (if any) is adjacent to the chunks and ends at the source's end");
                 if i < c.len() && j < $n {
                     kani::assert(c[i][j] == snap[i * $n + j], "C10.chunks_mut: chunk i element j is source element i*N+j");
                     c[i][j] = val;
@@ -353,7 +353,7 @@ macro_rules! chunks_mut {
                 let (c, _r) = GenericArray::<$T, $N>::chunks_from_slice_mut(&mut back[..l]);
                 let cl = c.len();
                 let flat = GenericArray::<$T, $N>::slice_from_chunks_mut(c);
-                kani::assert(zs || (addr(flat.as_ptr()) == base && flat.len() == cl * $n), "C10.slice_from_chunks_mut: inverse of chunks_from_slice_mut");
+                kani::assert(flat.len() == cl * $n && (zs || cl == 0 || addr(flat.as_ptr()) == base), "C10.slice_from_chunks_mut: inverse of chunks_from_slice_mut");
             }
             kani::cover!(true, "end reachable");
         }
@@ -402,22 +402,22 @@ macro_rules! native_chunks {
             let (i, j): (usize, usize) = (kani::any(), kani::any());
             {
                 let g: &[GenericArray<$T, $N>] = GenericArray::<$T, $N>::from_chunks(&native[..c]);
-                kani::assert(zs || (addr(g.as_ptr()) == base && g.len() == c), "C10.from_chunks: same address and count");
+                kani::assert(g.len() == c && (zs || addr(g.as_ptr()) == base), "C10.from_chunks: same address and count");
                 if i < c && j < $n {
                     kani::assert(g[i][j] == snap[i][j], "C10.from_chunks: element (i,j) unchanged");
                 }
                 let back: &[[$T; $n]] = GenericArray::<$T, $N>::into_chunks(g);
-                kani::assert(zs || (addr(back.as_ptr()) == base && back.len() == c), "C10.into_chunks: same address and count");
+                kani::assert(back.len() == c && (zs || addr(back.as_ptr()) == base), "C10.into_chunks: same address and count");
             }
             let val: $T = kani::any();
             {
                 let g: &mut [GenericArray<$T, $N>] = GenericArray::<$T, $N>::from_chunks_mut(&mut native[..c]);
-                kani::assert(zs || (addr(g.as_ptr()) == base && g.len() == c), "C10.from_chunks_mut: same address and count");
+                kani::assert(g.len() == c && (zs || addr(g.as_ptr()) == base), "C10.from_chunks_mut: same address and count");
                 if i < c && j < $n {
                     g[i][j] = val;
                 }
                 let back: &mut [[$T; $n]] = GenericArray::<$T, $N>::into_chunks_mut(g);
-                kani::assert(zs || (addr(back.as_ptr()) == base && back.len() == c), "C10.into_chunks_mut: same address and count");
+                kani::assert(back.len() == c && (zs || addr(back.as_ptr()) == base), "C10.into_chunks_mut: same address and count");
             }
             if i < c && j < $n {
                 kani::assert(native[i][j] == val, "C10.from_chunks_mut: write reaches the native arrays (same memory)");
